@@ -10,7 +10,7 @@ from simkit.driver import Outcome
 from simkit.tape import digest_of
 
 ID = "C06"
-RUNS = {"quick": 1_000_000, "thorough": 10_000_000}
+RUNS = {"quick": 700_000, "thorough": 10_000_000}
 SIM_TIME_UNIT = "match() calls"
 RULE = (
     "each run = 1..5 leaf matchers with overlapping acceptance sets (Equals/LessThan/GreaterThan/Always/Never "
